@@ -565,7 +565,8 @@ public:
     if (!FD->doesThisDeclarationHaveABody()) return true;
     if (FD->isDefaulted() || FD->isDeleted()) return true;
     if (!E.underRoot(FD->getLocation())) return true;
-    if (MainOnly && !E.SM.isInMainFile(E.SM.getExpansionLoc(FD->getLocation()))) return true;
+    // library units: main-file definitions plus the template instantiations they trigger (header-defined)
+    if (MainOnly && !E.SM.isInMainFile(E.SM.getExpansionLoc(FD->getLocation())) && !FD->isTemplateInstantiation()) return true;
     if (!seen.insert(FD).second) return true;
     fns.push_back(FD);
     return true;
